@@ -82,8 +82,32 @@ def _len(x):
     return len(x)
 
 
+_FORGE = None
+
+
+def forge_module():
+    """pytezos.michelson.forge re-instantiated from the current source for proxy execution; symbolic primitive tags are
+    concretised (forking) so that typed parsing sees ordinary primitive names."""
+    global _FORGE
+    if _FORGE is None:
+        from vf import bvx
+
+        F = bvx.load_module('/repo/src/pytezos/michelson/forge.py', 'bvx_forge_typed')
+        real_int = dict(F.prim_int)
+
+        class PrimInt:
+            def __getitem__(self, tag):
+                if isinstance(tag, bvx.SymInt):
+                    tag = tag.__index__()
+                return real_int[tag]
+
+        F.prim_int = PrimInt()
+        _FORGE = F
+    return _FORGE
+
+
 @contextlib.contextmanager
-def env():
+def env(forge=False):
     """Run Michelson type/instruction code on bvx proxies."""
     from vf import bvx
 
@@ -91,7 +115,11 @@ def env():
     import pytezos.michelson.types.map as t_map
     import pytezos.michelson.types.set as t_set
 
-    with bvx.shadowed(*mods), bvx.silenced():
+    extra = {}
+    if forge:
+        F = forge_module()
+        extra = {'forge_micheline': F.forge_micheline, 'unforge_micheline': F.unforge_micheline}
+    with bvx.shadowed(*mods, extra=extra), bvx.silenced():
         saved = []
         for m in (t_set, t_map):
             for n, v in (('set', _set), ('len', _len)):
@@ -115,7 +143,15 @@ def sym_value(ex, ty, name: str, maxlen: int = 2, maxcoll: int = 2):
 
     p = ty.prim
     if p in ('int', 'nat', 'mutez', 'timestamp'):
-        v = ex.int(name)
+        if getattr(ex, 'int_backend', 'int') == 'bv':
+            v = ex.bv(name)
+            k = getattr(ex, '_bv_ints', 0)
+            ex._bv_ints = k + 1
+            # the first integer leaf ranges over the full width, further ones over two Zarith groups (keeps the path tree small)
+            lim = 1 << ((ex.W - 10) if k == 0 else 13)
+            ex.assume((v > -lim) & (v < lim))
+        else:
+            v = ex.int(name)
         if p == 'nat':
             ex.assume(v >= 0)
         elif p == 'mutez':
@@ -273,3 +309,78 @@ def conc_cmp(a, b) -> int:
     """Reference comparison on concrete values -> -1/0/1."""
     lt, eq = ref_cmp(a, b)
     return -1 if lt else (0 if eq else 1)
+
+
+# ---- reference rendering of values as Micheline (independent of pytezos' to_micheline_value) --------
+def comb_leaves(v):
+    """Right-spine flattening of a pair value (annotations are irrelevant in Tezos)."""
+    from pytezos.michelson import types as t
+
+    out = [v.items[0]]
+    r = v.items[1]
+    while isinstance(r, t.PairType):
+        out.append(r.items[0])
+        r = r.items[1]
+    out.append(r)
+    return out
+
+
+def _dec(x):
+    from vf import bvx
+
+    if isinstance(x, (bvx.SymInt, bvx.IntZ)):
+        return bvx.DecStr(x)
+    return str(x)
+
+
+def _hexs(b):
+    from vf import bvx
+
+    if isinstance(b, bvx.SymBytes):
+        return b.hex()
+    return bytes(b).hex()
+
+
+def ref_micheline(v, mode='optimized', dom=None):
+    """mode: 'optimized' (PACK layout: combs of >= 4 leaves are sequences), 'legacy_optimized' (nested binary pairs),
+    'readable' (n-ary Pair). `dom(v, mode)` renders base58-rendered types."""
+    from pytezos.michelson import types as t
+
+    if isinstance(v, t.BoolType):
+        from vf import bvx
+
+        if isinstance(v.value, bvx.SymBool):
+            return {'prim': 'True'} if bool(v.value) else {'prim': 'False'}
+        return {'prim': 'True' if v.value else 'False'}
+    if isinstance(v, t.TimestampType) and mode == 'readable':
+        raise NotImplementedError('readable timestamps are handled by the caller')
+    if dom is not None and v.prim in ('address', 'key', 'key_hash', 'signature', 'chain_id', 'contract'):
+        return dom(v, mode)
+    if isinstance(v, t.IntType):
+        return {'int': _dec(v.value)}
+    if isinstance(v, t.StringType):
+        return {'string': v.value}
+    if isinstance(v, t.BytesType):
+        return {'bytes': _hexs(v.value)}
+    if isinstance(v, t.UnitType):
+        return {'prim': 'Unit'}
+    if isinstance(v, t.PairType):
+        if mode == 'legacy_optimized':
+            return {'prim': 'Pair', 'args': [ref_micheline(i, mode, dom) for i in v.items]}
+        leaves = [ref_micheline(i, mode, dom) for i in comb_leaves(v)]
+        if mode == 'readable' or len(leaves) == 2:
+            return {'prim': 'Pair', 'args': leaves}
+        if len(leaves) == 3:
+            return {'prim': 'Pair', 'args': [leaves[0], {'prim': 'Pair', 'args': leaves[1:]}]}
+        return leaves
+    if isinstance(v, t.OptionType):
+        return {'prim': 'None'} if v.item is None else {'prim': 'Some', 'args': [ref_micheline(v.item, mode, dom)]}
+    if isinstance(v, t.OrType):
+        if v.is_left():
+            return {'prim': 'Left', 'args': [ref_micheline(v.items[0], mode, dom)]}
+        return {'prim': 'Right', 'args': [ref_micheline(v.items[1], mode, dom)]}
+    if isinstance(v, (t.ListType, t.SetType)):
+        return [ref_micheline(i, mode, dom) for i in v.items]
+    if isinstance(v, t.MapType):
+        return [{'prim': 'Elt', 'args': [ref_micheline(k, mode, dom), ref_micheline(x, mode, dom)]} for k, x in v.items]
+    raise NotImplementedError(v.prim)
